@@ -191,26 +191,32 @@ _WRAP = ('map', 'clone', 'into', 'from', 'to_owned', 'to_vec', 'cloned', 'copied
          'Some', 'as_deref', 'borrow')
 
 
-def _is_identity(x, root, top=True):
-    """x is the value rooted at `root` itself, seen through value-preserving wrappers and Option::map of such"""
+def _is_identity(x, root, top=True, field=None):
+    """x is the value rooted at `root` (optionally: its field `field`) itself, seen through value-preserving wrappers
+    and Option::map of such"""
     if x.kind == 'place':
-        return x.root == root and all(f.startswith('as ') or f.isdigit() for f in x.fields)
+        fl = list(x.fields)
+        if field is not None:
+            if not fl or fl[0] != field:
+                return False
+            fl = fl[1:]
+        return x.root == root and all(f.startswith('as ') or f.isdigit() for f in fl)
     if x.kind == 'cast':
         return False
     if x.kind == 'call':
-        return x.name.rsplit('::', 1)[-1] in _WRAP and len(x.args) >= 1 and _is_identity(x.args[0], root, False) and \
-            all(a.kind == 'agg' and a.name.startswith('closure') or _is_identity(a, root, False) for a in x.args[1:])
+        return x.name.rsplit('::', 1)[-1] in _WRAP and len(x.args) >= 1 and _is_identity(x.args[0], root, False, field) and \
+            all(a.kind == 'agg' and a.name.startswith('closure') or _is_identity(a, root, False, field) for a in x.args[1:])
     if x.kind == 'agg':
         leaf = x.name.rsplit('::', 1)[-1]
         if leaf == 'None' and not x.args:
             return not top
         if leaf in ('Some', 'Borrowed', 'Owned') and len(x.args) == 1:
-            return _is_identity(x.args[0], root, False)
+            return _is_identity(x.args[0], root, False, field)
         return False
     if x.kind == 'phi':
         alts = x.args
         return any(not (a.kind == 'agg' and a.name.endswith('None')) for a in alts) and \
-            all(_is_identity(a, root, False) for a in alts)
+            all(_is_identity(a, root, False, field) for a in alts)
     return False
 
 
@@ -248,4 +254,33 @@ def identity_ctor(ctx, R, path, fields=None):
                           '%s stores %r in `%s`: not the parameter `%s` itself - a value the caller did not pass (a default '
                           'for a missing value, a clamped or sanitised one) reaches the consumers of the field' % (
                               path.rsplit('::', 2)[-2] + '::' + path.rsplit('::', 1)[-1], x, f, f))
+    return n
+
+
+def identity_from_self(ctx, R, path, adt_suffix, fields):
+    """W8 a builder hands the configured values to the component it builds UNCHANGED: in `path`, the struct literal of
+    `adt_suffix` gets, for every listed field f, `self.f` itself (through clone / Arc / Some wrappers) - not a value
+    combined with another option (max with a sibling, a clamp, a default)."""
+    bs = [b for b in (ctx.F.get(path) or []) if b.kind != 'Closure']
+    if not bs:
+        ctx.fail(R, path, 'ANCHOR-MISSING', 'builder %s not found' % path)
+        return 0
+    n = 0
+    for b in bs:
+        e = ExprBuilder(b).place(0, ())
+        aggs = [x for x in e.walk() if x.kind == 'agg' and x.name.rsplit('::', 1)[-1] == adt_suffix and x.extra and
+                x.extra.get('fields')]
+        if len(aggs) != 1:
+            ctx.note(R, '%s: %d struct literals of %s: identity wiring not evaluated' % (path, len(aggs), adt_suffix))
+            continue
+        ctx.read(b)
+        m = dict(zip(aggs[0].extra['fields'], aggs[0].args))
+        for f in fields:
+            if f not in m:
+                continue
+            n += 1
+            ctx.check(_is_identity(m[f], ('param', 1), True, f), R, b, 'builder:%s-handed-over-unchanged' % f, repr(m[f])[:80],
+                      '%s configures `%s` of %s with %r, not with the configured `%s` itself: the component works with '
+                      'another value than the one the user set' % (path.rsplit('::', 2)[-2] + '::' + path.rsplit('::', 1)[-1],
+                                                                    f, adt_suffix, m[f], f))
     return n
